@@ -376,7 +376,9 @@ def gen_buckets(rng, tier):
             for p in range(1, L):
                 B["write-split"].append("write %d %s %s %s" % (f, t, sh, s2str([p])))
                 B["write-split"].append("write %d %s %s %s" % (f, t, sh, s2str([p, "E"])))
-    some = [(f, t, sh) for (f, t), sh in zip(pairs, sers) if sh not in ("NULL", "-")]
+    # (a NULL object - tree "n" - is refused by json_object_to_fd although it serializes to "null": covered by the fixed
+    #  `write 0 n` cases; the file / pipe families below expect a successful write)
+    some = [(f, t, sh) for (f, t), sh in zip(pairs, sers) if sh not in ("NULL", "-") and t != "n"]
     for (f, t, sh) in rng.sample(some, min(len(some), 12 if quick else 80)):
         L = len(sh) // 2
         for path, opn in ((b"out.json", "ok"), (b"no-such-dir/out.json", "ENOENT"), (b".", "EISDIR"),
